@@ -4,7 +4,7 @@ Engine E1 (complete products).  Oracle: ref.compact (byte-string formulation of 
 """
 import itertools
 
-from mc.core import Family, Viol, HarnessError
+from mc.core import Family, Viol, HarnessError, StepHistories
 from ref import compact as R
 
 PROP = 'C17'
@@ -240,5 +240,65 @@ class PowHistories(Family):
         return 'ok', sel_then_check
 
 
+# ---- E4: histories from the import-time state of a fresh process -------------------------------------------------
+_HS = {'cur': 'mainnet'}          # chain selected so far in this (forked, single-history) process
+
+
+def _step_sel(ch):
+    def f():
+        bitcoin, _, _ = _lib()
+        bitcoin.SelectParams(ch)
+        _HS['cur'] = ch
+        return 'sel'
+    return f
+
+
+def _step_pow(hv, nbits):
+    def f():
+        _, core, _ = _lib()
+        h = hv.to_bytes(32, 'little')
+        want = R.pow_ok(h, nbits, R.POW_LIMIT[_HS['cur']])
+        try:
+            core.CheckProofOfWork(h, nbits)
+            got = True
+        except core.CheckProofOfWorkError:
+            got = False
+        if got != want:
+            raise Viol('CheckProofOfWork(hash=%#x, nBits=%#010x) with %s selected' % (hv, nbits, _HS['cur']),
+                       'accept' if want else 'reject', 'accept' if got else 'reject')
+        return 'accept' if got else 'reject'
+    return f
+
+
+def _step_dec(c):
+    def f():
+        _, _, S = _lib()
+        got = S.uint256_from_compact(c)
+        want = R.decode(c & ~0x00800000)[0] if c & 0x00800000 else R.decode(c)[0]
+        if not c & 0x00800000 and got != want:
+            raise Viol('uint256_from_compact(%#010x)' % c, hex(want), hex(got))
+        return 'dec'
+    return f
+
+
+def _step_enc(v):
+    def f():
+        _, _, S = _lib()
+        got = S.compact_from_uint256(v)
+        if got != R.encode(v):
+            raise Viol('compact_from_uint256(%#x)' % v, hex(R.encode(v)), hex(got))
+        return 'enc'
+    return f
+
+
+def fresh_histories():
+    steps = [('sel:' + c, _step_sel(c)) for c in CHAINS]
+    steps += [('pow:%x:%08x' % p, _step_pow(*p)) for p in PowHistories.PROBES]
+    # decodings of canonical and non-canonical spellings of the values that are encoded below
+    steps += [('dec:%08x' % c, _step_dec(c)) for c in (0x1d00ffff, 0x05000012, 0x04800000, 0x04000000, 0x01003456, 0x05008000, 0x03120000)]
+    steps += [('enc:%x' % v, _step_enc(v)) for v in (0, 0x120000, 0x80000000, 0xffff << 208, 0x80, 0x12)]
+    return StepHistories('fresh_process_histories', steps, 3, 4)
+
+
 def families(tier):
-    return [Decode(), Encode(), PoW(), PowHistories()]
+    return [Decode(), Encode(), PoW(), PowHistories(), fresh_histories()]
